@@ -535,7 +535,7 @@ func parseRaces(stderr string) []found {
 				// memory it owns (its receive buffer, its arena region): if
 				// such an access races, the library kept or touched memory
 				// that is not its own
-				if strings.Contains(m[1], ".ownerWrite") || strings.Contains(m[1], ".ownerRead") {
+				if strings.Contains(m[1], ".ownerWrite") || strings.Contains(m[1], ".ownerRead") || strings.Contains(m[1], ".ownerScribble") {
 					fn = "caller-owned-memory"
 					break
 				}
